@@ -80,11 +80,37 @@ def flush_rule(ctx: Ctx, rule: str, f: FuncInfo, listvar: str, elem_name: Option
             inner = [m for m, _ in flush_loops if any(m.ast is s for s in n.ast.body)]
             if inner:
                 flush.append(n)
+    # accepted idiom: the reporting loop lives in a helper (method of the class or nested function) that receives the list
+    for n in g.stmt_nodes():
+        if n.kind != 'stmt':
+            continue
+        for e in n.exprs:
+            for c in calls(e):
+                argpos = [i for i, a in enumerate(c.args) if text(a) == listvar] + [k.arg for k in c.keywords if text(k.value) == listvar]
+                if not argpos:
+                    continue
+                callee = None
+                if isinstance(c.func, ast.Attribute) and text(c.func.value) == 'self' and f.cls is not None:
+                    callee = f.cls.find_method(c.func.attr)
+                elif isinstance(c.func, ast.Name):
+                    callee = ctx.idx.functions.get(f'{f.qualname}.<locals>.{c.func.id}') or f.module.functions.get(c.func.id)
+                if callee is None:
+                    continue
+                params = [p for p in callee.params if p != 'self']
+                pname = argpos[0] if isinstance(argpos[0], str) else (params[argpos[0]] if argpos[0] < len(params) else None)
+                if pname is None:
+                    continue
+                hl = [lp for lp in walk_no_nested(callee.node) if isinstance(lp, ast.For) and text(lp.iter) == pname
+                      and any(True for s_ in lp.body for _ in reporter_calls(s_))]
+                if hl:
+                    flush.append(n)
+                    flush_loops.append((n, []))
+                    ctx.analysed(callee.qualname)
     ctx.floor(rule, f'{listvar}.append sites in {f.qualname}', len(appends), min_appends)
     ctx.floor(rule, f'flush loops in {f.qualname}', len(flush_loops), 1)
     # (i) reporters inside the flush loop pass the validation mode and the element
     for n, reps in flush_loops:
-        for c in reps:
+        for c in reps:   # (helpers: their reporter calls are checked by C04.b on the helper itself)
             a0 = get_arg(c, 0, 'validation')
             ok = a0 is not None and text(a0) == 'validation'
             ctx.ob(rule, f'flush loop reports with the caller\'s validation mode: {text(c)[:80]}', f.loc(c), ok,
